@@ -13,4 +13,8 @@ type Spec struct {
 // Registry: property id -> check.
 var Registry = map[string]*Spec{}
 
-func register(id string, s *Spec) { Registry[id] = s }
+func register(id string, s *Spec) {
+	base := s.Run
+	s.Run = func(c *core.Ctx) { guarded(c, id, "base rules of "+id, base) }
+	Registry[id] = s
+}
